@@ -1384,3 +1384,31 @@ func (e *Env) BraceSweep(maxLen int) {
 		rec(nil)
 	}
 }
+
+// EdgeSlots: the ends of the slot space and the EMPTY key. "" is a legal Redis key and HASH_SLOT("") = CRC16 of zero
+// bytes mod 16384 = 0: a slot list that contains / excludes slot 0 decides it like every other key of slot 0. Keys:
+// "", keys steered into slots 0, 1, 16382, 16383 (tagged, and "hia" = 16383 untagged); lists: black / white with and
+// without the end slots; through FilterKey/FilterSlot (key op) and FilterCmdKey (SET, DEL with a second key of another
+// slot, MSET, RENAME).
+func (e *Env) EdgeSlots() {
+	cfgs := []Cfg{
+		{SB: [][]uint16{{0}}}, {SB: [][]uint16{{0, 0}, {16383}}}, {SB: [][]uint16{{1, 16382}}}, {SB: [][]uint16{{0, 16383}}},
+		{SW: [][]uint16{{0}}}, {SW: [][]uint16{{1, 16383}}}, {SW: [][]uint16{{0, 16382}}}, {SW: [][]uint16{{0, 16383}}},
+		{SW: [][]uint16{{0, 100}}, SB: [][]uint16{{0}}}, {SW: [][]uint16{{16383}}, SB: [][]uint16{{5}}}, {SB: [][]uint16{{0}}, PW: []string{"k"}},
+	}
+	keys := [][]byte{{}, KeyInSlot(nil, 0, nil), KeyInSlot([]byte("a"), 0, []byte("b")), KeyInSlot(nil, 1, nil), KeyInSlot(nil, 16382, nil),
+		KeyInSlot([]byte("k"), 16383, nil), []byte("hia"), []byte("{}"), []byte("k")}
+	for _, c := range cfgs {
+		f := e.Make(c)
+		for _, k := range keys {
+			e.OpKey(c, f, k)
+			other := KeyInSlot([]byte("o"), 7000, nil)
+			e.OpFck(c, f, "set", [][]byte{k, []byte("v")})
+			e.OpFck(c, f, "DEL", [][]byte{k, other})
+			e.OpFck(c, f, "del", [][]byte{other, k})
+			e.OpFck(c, f, "mset", [][]byte{other, []byte("1"), k, []byte("2")})
+			e.OpFck(c, f, "rename", [][]byte{k, other})
+			e.S.Count("edge_slot_ops")
+		}
+	}
+}
